@@ -238,3 +238,76 @@ Theorem C18_ex_once_hyps :
   wf s /\ owner s 1 = Some 0%N /\ discharges 0 1 (ECommit 0 1) /\ discharges 0 1 (ERollback 0 1) /\
   mentions 1 (ECommit 0 1) = true /\ mentions 1 (EPost 1 (Some 1%N) false 5) = true.
 Proof. exact ex_once_hyps. Qed.
+
+(** ** The controller side (Txn/Controller.v): right id, right fail flag, the verdict reported, one discharge *)
+From FV Require Import Txn.Controller Proofs.ControllerProofs.
+
+(** In every run of declare / post / commit / rollback / discharge / drop calls, whatever the coordinator
+    answers: a declare message is written only by a declare call, and every post and every discharge
+    written by a call on handle k names exactly the transaction id that the coordinator issued in its
+    answer to the k-th declare call. *)
+Theorem C18_controller_right_id_on_the_wire :
+  forall ops i o w r, nth_error ops i = Some o -> nth_error (snd (crun [] ops)) i = Some (w, r) ->
+  forall x, In x w ->
+    match x with
+    | WDecl => exists a, o = ODecl a
+    | WPost id _ | WDisch id _ => exists k, op_slot o = Some k /\ nth_error (issued (firstn i ops)) k = Some (Some id)
+    end.
+Proof. intros ops i o w r Ho Hw x Hx. exact (run_wire_ids ops [] [] inv_init i o w r Ho Hw x Hx). Qed.
+Print Assumptions C18_controller_right_id_on_the_wire.
+
+(** ... and the rollbacks written for handles still held when the application goes away *)
+Theorem C18_controller_final_rollbacks :
+  forall ops x, In x (final_wire (fst (crun [] ops))) ->
+    exists k id, x = WDisch id true /\ nth_error (issued ops) k = Some (Some id).
+Proof. intros ops x Hx. exact (final_wire_ids ([] ++ ops) _ x (inv_run ops [] [] inv_init) Hx). Qed.
+Print Assumptions C18_controller_final_rollbacks.
+
+(** commit writes discharge(id, fail = false) first - anything after it is the rollback of the handle
+    dropped undischarged -, returns Ok exactly when the coordinator accepted and the coordinator's
+    rejection otherwise; rollback and drop write fail = true only *)
+Theorem C18_controller_fail_flag_and_verdict :
+  (forall st k a h st' w r, slot st k = Some h -> h_done h = false -> cstep st (OCommit k a) = (st', w, r) ->
+     exists rest, w = WDisch (h_id h) false :: rest /\ (forall x, In x rest -> x = WDisch (h_id h) true) /\
+       (a = AAccepted -> rest = [] /\ r = ROk) /\ (forall c, a = ARejected c -> r = RRejected c) /\ (r = ROk -> a = AAccepted)) /\
+  (forall st k a h st' w r, slot st k = Some h -> h_done h = false -> cstep st (ORollback k a) = (st', w, r) ->
+     w <> [] /\ (forall x, In x w -> x = WDisch (h_id h) true) /\
+       (a = AAccepted -> w = [WDisch (h_id h) true] /\ r = ROk) /\ (forall c, a = ARejected c -> r = RRejected c) /\ (r = ROk -> a = AAccepted)) /\
+  (forall st k h st' w r, slot st k = Some h -> h_done h = false -> cstep st (ODrop k) = (st', w, r) -> w = [WDisch (h_id h) true]).
+Proof. exact (conj commit_says_commit (conj rollback_says_rollback drop_rolls_back)). Qed.
+Print Assumptions C18_controller_fail_flag_and_verdict.
+
+(** the declare call reports what the coordinator answered *)
+Theorem C18_controller_declare_verdict :
+  forall st a st' w r, cstep st (ODecl a) = (st', w, r) ->
+  w = [WDecl] /\ (forall id, a = ADeclared id -> r = ROkId id /\ slot st' (length st) = Some {| h_id := id; h_done := false |}) /\
+  (forall c, a = ARejected c -> r = RRejected c) /\
+  ((forall id, a <> ADeclared id) -> slot st' (length st) = None).
+Proof. exact declare_verdict. Qed.
+Print Assumptions C18_controller_declare_verdict.
+
+(** a commit, a rollback, a drop, or a discharge the coordinator accepted closes the handle; once closed,
+    no call on it in any continuation writes a discharge again *)
+Theorem C18_controller_discharged_at_most_once :
+  (forall st k o st' w r h, slot st k = Some h -> cstep st o = (st', w, r) ->
+     (exists a, o = OCommit k a) \/ (exists a, o = ORollback k a) \/ o = ODrop k \/ (exists fail, o = ODisch k fail AAccepted) ->
+     closed st' k) /\
+  (forall ops st k, closed st k ->
+     closed (fst (crun st ops)) k /\
+     forall i o w r, nth_error ops i = Some o -> nth_error (snd (crun st ops)) i = Some (w, r) ->
+       op_slot o = Some k -> existsb is_disch w = false).
+Proof. exact (conj closing_step discharged_at_most_once). Qed.
+Print Assumptions C18_controller_discharged_at_most_once.
+
+Example C18_controller_example :
+  let a := [10%N; 11%N] in let b := [7%N] in
+  crun [] [ODecl (ADeclared a); ODecl (ARejected 2%N); ODecl (ADeclared b);
+           OPost 0 0 PTxAccepted; OCommit 0 (ARejected 1%N); OPost 2 1 (PTxRejected 3%N); ORollback 2 AAccepted; OCommit 0 AAccepted] =
+  ([None; None; None],
+   [([WDecl], ROkId a); ([WDecl], RRejected 2%N); ([WDecl], ROkId b);
+    ([WPost a 0], ROkAccepted);
+    ([WDisch a false; WDisch a true], RRejected 1%N);
+    ([WPost b 1], ROkRejected 3%N);
+    ([WDisch b true], ROk);
+    ([], RSkip)]).
+Proof. exact controller_example. Qed.
